@@ -121,13 +121,26 @@ def main():
         print("BUILD-ERROR: harness does not build against /repo: %s" % str(e)[-1500:])
         return 2
 
+    # translators: regenerate the Lean tables from /repo. A translator that no longer understands the source is a
+    # broken tie, not a build error: it is reported like a theorem that no longer checks, after the search for a
+    # failing input.
+    broken_ties = []
     if getattr(spec, "needs_extract", False):
         try:
             props.run_extract()
         except core.BuildError as e:
-            print("BUILD-ERROR: the names extractor failed on /repo: %s" % str(e)[-1500:])
-            return 2
+            broken_ties.append("translator go/extract (names tables -> Generated/Names.lean) failed on /repo, the generated "
+                               "tables are stale: %s" % str(e)[-600:])
+    if getattr(spec, "needs_effects", False):
+        try:
+            odd = props.run_effects()
+            for o in odd[:12]:
+                broken_ties.append("write-set facts (go/effects): " + o)
+        except core.BuildError as e:
+            broken_ties.append("translator go/effects (write sets -> Generated/Effects.lean) failed on /repo, the generated "
+                               "table is stale: %s" % str(e)[-600:])
     po = proof_obligations(spec)
+    po["broken"] = broken_ties + po["broken"]
     if tier == "thorough" and not args.replay and not po["broken"]:
         ok, log = leanchecker(spec.lean_modules)
         po["leanchecker"] = "ok" if ok else log
